@@ -126,6 +126,16 @@ def restyle(wire: bytes, style: str) -> bytes:
     head, sep, body = wire.partition(b"\r\n\r\n")
     if not sep:
         return wire
+    # several messages in one buffer (two events written at once): each is restyled on its own
+    for ln in head.split(b"\r\n")[1:]:
+        if ln.startswith(b"Content-Length: "):
+            n = int(ln.split(b": ", 1)[1])
+            if len(body) > n:
+                return restyle(head + sep + body[:n], style) + restyle(body[n:], style)
+            break
+    else:
+        if body:
+            return restyle(head + sep, style) + restyle(body, style)
     lines = head.split(b"\r\n")
     start, hdrs = lines[0], [ln.split(b": ", 1) for ln in lines[1:]]
     has_len = any(k == b"Content-Length" for k, _ in hdrs)
